@@ -22,6 +22,28 @@ CHECKS = {
          "Random histories of traffic (injected and real receptions on all pipes, transmissions with k lost attempts, queued payloads, ACK payloads) interleaved with all accessor forms in dynamic, static (per-pipe lengths) and mixed modes and all IRQ masks."),
  "C12": ("history + executable reference queue; clone-and-drain content comparison after every operation", "4/C12",
          "All operation histories of depth 6 (quick) / 8 (thorough) over a 9-operation alphabet (fresh/duplicate/re-used-object enqueue, dequeue, peek, len, max_queue_size lower/higher, fragmentation toggle) by DFS with cloned states, plus random walks on a real node with `fragmentation` toggled."),
+ "C04": ("ground-truth listening table + observed next hops on a complete 781-node network of real nodes sharing one simulated medium; offline path composition vs. digit-arithmetic reference", "4/C04",
+         "All 781x6 listening entries (uniqueness, level-shared pipe 0) for the default and seeded random address bytes with multicast on/off; each observed hop is a real transmission that must be accepted by exactly one radio, the reference next hop: 48 class-chosen destinations per node in both roles (quick), all 781x780 pairs (thorough); multicast level membership by reception."),
+ "C07": ("invariant at the API boundary: register/CE snapshot vs. reference addresses after every outermost network/mesh call of every node", "4/C07",
+         "Own nasty histories (absent hops, lost ACKs/NETWORK_ACKs/fragments, loop-back, invalid arguments, node_address/multicast_level assignment, mesh calls with and without master) plus borrowed C05/C13/C14 scenarios; evidence lists return sites by (class, operation, outcome)."),
+ "C11": ("byte-level reference codec + reference TMRh20-numbering fragmenter and TMRh20-style reassembler applied to the on-air frames; caller-header snapshot monitor incl. routed sends on a 3-node chain", "4/C11",
+         "Header codec over all 12-bit addresses, id edge values and wrap, all types x reserved values; one write/send/multicast per message length 0..144 x types on RF24Network and RF24Mesh against a promiscuous-ACK stub."),
+ "C13": ("offline checker over the air log (NETWORK_ACK frames by originator/PID, reception time at the origin) and the call history under per-hop fault plans", "4/C13",
+         "Routes of 1..8 hops over two-chain topologies, every message type outside the consumed ones, fault plans killing one forward hop or one NETWORK_ACK relay, tx/route timeouts varied; guard band around the route timeout admits either answer."),
+ "C14": ("application logs of all nodes + air log (packets per frame, ACK packets, relayed frames) + listening facts, judged at quiescence", "4/C14",
+         "Populated random topologies with relay / allow_multicast flags, every sender class x level None/0..4/-1/7, lengths 0..144, lazy readers and back-to-back multicasts; fragmented multicasts are a recorded known finding (unacknowledged stream without flow control)."),
+ "C15": ("exception/virtual-time/air/queue monitors around update() for frames injected at the radio; exhaustive predicate sweep vs. reference", "4/C15",
+         "All 65536 values + None for the validity predicate (exhaustive); ~20k (quick) injected frames over 7 roles x levels 0..4 x all types x lengths x destination/origin classes, truncated mesh payloads, random strings, bursts of 1..3 frames."),
+ "C16": ("reference lease model + table invariant after every event + reply frames on air checked against the real listening addresses of the first hop", "4/C16",
+         "All event sequences up to depth 4 (quick) / 5 (thorough) over 3 IDs x 3 via-nodes + releases, random depth-60 histories over IDs 1..255, fill/release/re-request on ten parents, save/load round trips for table sizes 0..255 in both formats."),
+ "C17": ("end-state and history checker over concurrent joins on the deterministic multi-MCU scheduler: results vs. master table, application logs, documented codes", "4/C17",
+         "40 (quick) / 4000 (thorough) scenarios: master + 1..12 joiners in their own threads with start offsets, relays forced by >5 joiners, allow_children mixes, then per node lookups / mesh send / check_connection / release / re-join one at a time; hostile-medium variant judges only no-exception, termination, valid-or-None."),
+ "C18": ("independent bit-serial BLE link-layer 'phone model' decoding every on-air packet for the channel the radio was tuned to", "4/C18",
+         "6k (quick) / 200k (thorough) cases over name/PA/MAC forms, chunk sets around the capacity boundary in single/list/tuple form, and channel histories of hop_channel / channel= / shared with-blocks up to depth 8."),
+ "C19": ("independent BLE encoder/decoder: element-wise equality, corruption sweep decided by the reference, exception monitor on available()", "4/C19",
+         "FakeBLE->FakeBLE over the air and reference-encoder -> RX FIFO on all channels; battery and temperature sweeps (exact hundredths, both signs), URLs, raw chunks; single/double bit corruptions; CRC-valid adversarial AD structures; random payloads; 1..3 queued packets."),
+ "C20": ("the C01/C02/C08/C10 monitors re-run through a lite driver adapter on the real adafruit SPIDevice + reduced reference configuration model + load_ack clause", "4/C20",
+         "Lite as transmitter, receiver and on both ends incl. full<->lite interop; all pairs over a 47-call lite configuration alphabet + walks; load_ack for lengths 0..34,40 x pipes -1..6 x FIFO fill 0..3."),
 }
 NOT_YET = {}
 def main():
